@@ -235,7 +235,8 @@ def torch_runs(run, tier, rng, root, traces, computer=None, seed=5, combos=None,
     for k, (n, cont) in enumerate([(900, "wav"), (1300, "npy"), (60, "npy"), (1100, "pt"), (800, "sph"), (1000, "npy2"),
                                    (100, "npy"), (161, "wav")]):
         # (ids are matched whole: "t00" is not done because "t00x" is)
-        uid = {0: "t00x", 3: "t00"}.get(k, "t%02d" % k)
+        # (... and may contain dots: "sp1.0-t04" and "sp1.1-t05" are two utterances, each stored under its own name)
+        uid = {0: "t00x", 3: "t00", 4: "sp1.0-t04", 5: "sp1.1-t05"}.get(k, "t%02d" % k)
         x = nprng.randint(-3000, 3000, size=n).astype(np.int16)
         p = os.path.join(d, "raw", uid + "." + cont.replace("npy2", "npy"))
         if cont == "wav":
